@@ -98,7 +98,13 @@ impl std::str::FromStr for PatchHeader {
     type Err = String;
 
     fn from_str(s: &str) -> Result<Self, Self::Err> {
-        let paragraph = Paragraph::from_str(s).map_err(|e| e.to_string())?;
+        // A header without any known field prints as the empty text; read that back as
+        // the empty header rather than failing for want of a paragraph.
+        let paragraph = if s.trim().is_empty() {
+            Paragraph::new()
+        } else {
+            Paragraph::from_str(s).map_err(|e| e.to_string())?
+        };
         let mut header = PatchHeader::from_paragraph(&paragraph)?;
         if header.author.is_none() {
             header.author = paragraph.get("From").map(|v| v.to_string());
